@@ -180,18 +180,37 @@ func c16impl(c *core.Ctx, im *ssa.Function) {
 	// the frames of the group are analysed together, values are identified across them by ipv
 	frames := []*ssa.Function{im}
 	inGroup := map[*ssa.Function]bool{im: true}
+	// siteOf: the one call of helper h made from inside the group (h may serve other implementations too)
+	siteOf := map[*ssa.Function]*ssa.Call{}
 	for changed := true; changed; {
 		changed = false
 		for _, h := range core.HelpersOf(p, []*ssa.Function{im}) {
-			if inGroup[h] || core.SingleSite(p, h) == nil {
+			if inGroup[h] {
 				continue
 			}
-			caller := core.SingleSite(p, h).Parent()
-			for caller.Parent() != nil {
-				caller = caller.Parent()
+			sites, complete := core.CallSites(p, h)
+			if !complete {
+				continue
 			}
-			if inGroup[caller] {
+			var inside []*ssa.Call
+			for _, st := range sites {
+				caller := st.Caller
+				for caller.Parent() != nil {
+					caller = caller.Parent()
+				}
+				if !inGroup[caller] {
+					continue
+				}
+				call, isCall := st.Instr.(*ssa.Call)
+				if !isCall || st.Kind != "call" {
+					inside = append(inside, nil, nil) // started asynchronously / deferred: not a synchronous frame
+					continue
+				}
+				inside = append(inside, call)
+			}
+			if len(inside) == 1 && inside[0] != nil {
 				inGroup[h], changed = true, true
+				siteOf[h] = inside[0]
 				frames = append(frames, h)
 			}
 		}
@@ -201,7 +220,7 @@ func c16impl(c *core.Ctx, im *ssa.Function) {
 			v = core.Resolve(v)
 			if prm, isP := v.(*ssa.Parameter); isP {
 				h := prm.Parent()
-				site := core.SingleSite(p, h)
+				site := siteOf[h]
 				if h == im || !inGroup[h] || site == nil {
 					return v
 				}
